@@ -55,6 +55,7 @@ SIMPLE = {
     'super(IndexedList, self).__init__(items)': 'IList LInit',
     'self._reindex()': 'IReindex',
     'self._addindex(obj)': 'IAddIndexArg',
+    'self._addindex(new_obj)': 'IAddIndexArg',
     'for obj in newList:\n    _add(obj)': 'IAddIndexEach',
     'for obj in newList:\n    self._addindex(obj)': 'IAddIndexEach',
     'for obj in self:\n    _add(obj)': 'IAddIndexSelfEach',
